@@ -379,7 +379,11 @@ class SymInt(object):
     def __gt__(self, o): return self._cmp(o, 'gt')
     def __ge__(self, o): return self._cmp(o, 'ge')
     def __bool__(self): return bool(self != 0)
-    __hash__ = None
+
+    def __hash__(self):
+        # dict / set membership with a symbolic key: enumerate the key's feasible values (solver-driven fork)
+        return hash(concretize(self))
+
     def __index__(self): return concretize(self)
     def __int__(self): return concretize(self)
 
@@ -1170,7 +1174,7 @@ def sx_getitem(a, i):
         return _select(a, i)
     if ta is dict and isinstance(i, SymInt):
         n = len(a)
-        if all(k in a for k in range(n)):        # dense integer keys 0..n-1: same as a list
+        if i.lo >= 0 and i.hi < n and all(k in a for k in range(n)):        # dense integer keys 0..n-1 and index in range: same as a list
             return _select([a[k] for k in range(n)], i)
         return a[concretize(i)]
     return a[i]
